@@ -3,6 +3,7 @@
 //!   dltv replay <suite> <cases.ndjson> --out FILE            direction A: replay TLC-generated cases
 //! A side file FILE.stats.json carries the measured counts that go into the evidence.
 mod build;
+mod codes;
 mod gen;
 mod proj;
 mod replay;
@@ -73,6 +74,7 @@ fn main() {
             match suite {
                 "slice" => slice::record(mode, seed, n, &mut out),
                 "build" => build::record(mode, seed, n, &mut out),
+                "codes" => codes::record(mode, seed, n, &mut out, arg(&args, "--shard").map(|s| s.parse().unwrap()).unwrap_or(0), arg(&args, "--of").map(|s| s.parse().unwrap()).unwrap_or(1)),
                 _ => { eprintln!("unknown suite {}", suite); std::process::exit(2) }
             }
             out.finish(&out_path, json!({}));
@@ -92,6 +94,12 @@ fn main() {
             }
             out.finish(&out_path, json!({"cases": cases.len()}));
         }
+        Some("sweep") => {
+            // dltv sweep --per-low K --threads T --seed S : the reserved type-info bits (C14)
+            let per_low: u32 = arg(&args, "--per-low").map(|s| s.parse().unwrap()).unwrap_or(64);
+            let threads: u32 = arg(&args, "--threads").map(|s| s.parse().unwrap()).unwrap_or(8);
+            println!("{}", codes::sweep(seed, per_low, threads));
+        }
         Some("rerun") => {
             let suite = args[2].as_str();
             let ev: J = serde_json::from_str(&std::fs::read_to_string(&args[3]).expect("event file")).expect("event json");
@@ -99,6 +107,7 @@ fn main() {
             let e = match suite {
                 "slice" => slice::rerun(&ev),
                 "build" => build::rerun(&ev),
+                "codes" => codes::rerun(&ev),
                 _ => { eprintln!("unknown suite {}", suite); std::process::exit(2) }
             };
             out.emit(e, true);
